@@ -483,4 +483,7 @@ def run(F, R, config="all"):
     r3_r4(F, R)
     r5(F, R)
     r7(F, R)
+    # the integrator maps are functions of their arguments only if the backend carries nothing from one kernel call to the next
+    from . import c17
+    c17.stateless_backend(F, R, rid="C02-R8")
     R.assume("Math trait contract: `&mut Vector` parameters are written, `& Vector` parameters only read")
